@@ -156,6 +156,26 @@ var kinds = []string{
 	// calls the library must refuse (they may leave pooled / cached state behind for the others), and
 	// aliasing calls on goroutine-private objects (a contended fast path may fall back to a slower one)
 	"rejected.calls", "private.alias",
+	// a caller-supplied entropy source that panics inside Read; the caller recovers.  Whatever the library
+	// holds across the call into the caller's code (a lock, a pooled buffer) must not stay held
+	"reader.panics",
+}
+
+type panickingReader struct{ after int }
+
+func (r *panickingReader) Read(p []byte) (int, error) {
+	if r.after <= 0 {
+		panic("entropy source panicked")
+	}
+	n := r.after
+	if n > len(p) {
+		n = len(p)
+	}
+	for i := 0; i < n; i++ {
+		p[i] = 0x5a
+	}
+	r.after -= n
+	return n, nil
 }
 
 // longList: list lengths of the multi-scalar operations by the op's C
@@ -287,6 +307,21 @@ func (e *env) exec(o op) []byte {
 		return b2(r.Bytes(), inv.Bytes(), sum.Bytes(), secp256k1.NewScalarFrom(e.scs[b3]).Bytes())
 	case "scalar.observe":
 		return []byte{byte(e.scs[a3].Equal(e.scs[b3])), byte(e.scs[a3].IsZero()), byte(e.scs[a3].IsGreaterThanHalfN()), e.scs[c3].Bytes()[31]}
+	case "reader.panics":
+		var out []byte
+		try := func(f func()) {
+			out = append(out, flag(lib.Catch(f) != nil)...)
+		}
+		try(func() { _, _ = e.priv[i].Sign(&panickingReader{after: o.C * 5}, e.dig[j], nil) })
+		try(func() { _, _, _, _ = e.priv[j].SignRaw(&panickingReader{after: o.B * 6}, e.dig[i]) })
+		try(func() { _, _ = e.spriv[i].Sign(&panickingReader{after: o.A * 6}, e.dig[j], nil) })
+		// and the keys go on working
+		sig, err := e.spriv[i].Sign(bytes.NewReader(bytes.Repeat([]byte{byte(o.C)}, 32)), e.dig[j], nil)
+		out = append(out, flag(err == nil)...)
+		out = append(out, sig...)
+		sig, err = e.priv[i].Sign(bytes.NewReader(bytes.Repeat([]byte{byte(o.B)}, 32)), e.dig[j], nil)
+		out = append(out, flag(err == nil)...)
+		return append(out, sig...)
 	case "rejected.calls":
 		var out []byte
 		rej := func(refused bool) {
@@ -482,7 +517,9 @@ func workload(t *rapid.T, coldStart bool) {
 		}(w)
 	}
 	close(start)
-	wg.Wait()
+	if returned, _, stuck := lib.Watch(wg.Wait); !returned {
+		t.Fatalf("the concurrent phase never ends: every goroutine still inside the library is parked and nobody is left to wake them\n  waiting: %s\n  workload: %s", stuck, desc)
+	}
 	if coldStart {
 		alone = build(t, material, nil)
 		for i, o := range ops {
